@@ -104,10 +104,16 @@ def plan(prop, tier):
                     ("c10_walk_cp", C(MaxBatches=6, MaxPokes=2, SimLen=18, CachePersisted="TRUE"), 30 if q else 200)]
         P["edges"] = []
         P["sim"].append(("c10_walk_mem", C(MaxBatches=6, MaxPokes=2, SimLen=14, HasLL="FALSE", LLInit="FALSE", OpAlpha='{"s1","d","m1","m2"}'), 30 if q else 200))
-        P["dims"] = {"c10_walk": [dims("store"), dims("app")],
-                     "c10_walk_mrg": [dims("store"), dims("store", compaction="force")],
-                     "c10_walk_mem": [dims("mem"), dims("mem", deferredSort=True)],
-                     "c10_walk_cp": [dims("store", cachePersisted=True)]}
+        # copyCheck: every value a copying Get returned is kept, must lie outside every mapping of the data
+        # files, and must read the same once snapshot, collection and store are closed (second sentence of the
+        # property); mergeAlias: a merge operator that hands back existingValue itself when the operand
+        # changes nothing (an operator may do that), so that a lower-level value fetched without copying shows
+        P["dims"] = {"c10_walk": [dims("store", copyCheck=True), dims("app")],
+                     "c10_walk_mrg": [dims("store"), dims("store", compaction="force", copyCheck=True),
+                                      dims("store", copyCheck=True, mergeAlias=True, concr="aliasmerge"),
+                                      dims("store", copyCheck=True, mergeAlias=True, concr="aliasmerge", cachePersisted=True, compaction="force")],
+                     "c10_walk_mem": [dims("mem"), dims("mem", deferredSort=True, copyCheck=True)],
+                     "c10_walk_cp": [dims("store", cachePersisted=True, copyCheck=True)]}
         P["leads"] = [("c10_lead", C(NKeys=1, OpAlpha='{"s1","d","m1"}', MaxOps=1, MaxBatches=3), ["DirectGetChainsOnNil"], ["LeadDirectGetAgrees"])]
         P["dims"]["c10_lead"] = [dims("store", nkeys=1)]
         # states in which a cached snapshot would be stale for SkipLowerLevel reads (L29)
